@@ -188,6 +188,25 @@ func runC15() {
 				}
 				return geom.Point{ratF(x), ratF(y)}
 			}
+			// ptNear: the middle of one side of the tile, 1/4096 of a tile inside (ex/ey: -1 = near the low side, -2 = near the high side)
+			ptNear := func(tx, ty int64, ex, ey int64) geom.Point {
+				fr := func(t, e int64) *big.Rat {
+					switch e {
+					case -1:
+						return big.NewRat(4096*t+1, 4096)
+					case -2:
+						return big.NewRat(4096*t+4095, 4096)
+					}
+					return big.NewRat(8*t+e, 8)
+				}
+				x := new(big.Rat).Add(ox, new(big.Rat).Mul(tsx, fr(tx, ex)))
+				d := new(big.Rat).Mul(tsy, fr(ty, ey))
+				y := new(big.Rat).Sub(oy, d)
+				if bottomLeft {
+					y = new(big.Rat).Add(oy, d)
+				}
+				return geom.Point{ratF(x), ratF(y)}
+			}
 			w, h := tm.MatrixWidth, tm.MatrixHeight
 			// the API computes in float64 on operands as large as the origin and the matrix size:
 			// tolerance = the documented 9-decimal rounding + a few ulps of the largest operand
@@ -256,8 +275,12 @@ func runC15() {
 							c15Case{Set: name, Matrix: z, Tile: [2]uint{uint(tx), uint(ty)}, Got: fmt.Sprint(got, ok), Want: fmt.Sprint(wantX, wantY)})
 					}
 					// FromNative(interior point) == tile
-					for _, e := range [][2]int64{{4, 4}, {1, 1}, {7, 1}, {1, 7}, {7, 7}} {
+					for _, e := range [][2]int64{{4, 4}, {1, 1}, {7, 1}, {1, 7}, {7, 7}, {-1, 4}, {-2, 4}, {4, -1}, {4, -2}} {
 						pt := ptAt(tx, ty, e[0], e[1])
+						if e[0] < 0 || e[1] < 0 {
+							// strictly inside, 1/4096 of a tile from the left / right / first / last side
+							pt = ptNear(tx, ty, e[0], e[1])
+						}
 						t2, ok := tms.FromNative(uint(z), pt)
 						trans++
 						nontrivial++
@@ -339,7 +362,7 @@ func runC15() {
 	r.Finish(map[string]any{
 		"states": states, "transitions": trans, "traces_validated_against_impl": 0, "samples": samples.L,
 		"evaluations": trans, "distinct_nontrivial": nontrivial,
-		"rule":       "sets = the 14 shipped documents and the test document, each also rewritten to the other corner of origin (same grid); state = (set, tile matrix without variable widths, tile) for all tiles when the matrix has <= 4096 tiles (thorough 65536), else the product of the column classes {0,1,2,w/2-1,w/2,w-3,w-2,w-1} and the same row classes, plus 8 outside points per matrix; transitions = ToNative (also for the tiles one past the last column/row, whose corners close the grid: tile (w,h) is the far corner of the bounding box), FromNative at 5 interior points per tile, MatrixBoundingBox; non-trivial = FromNative evaluations at interior points",
+		"rule":       "sets = the 14 shipped documents and the test document, each also rewritten to the other corner of origin (same grid); state = (set, tile matrix without variable widths, tile) for all tiles when the matrix has <= 4096 tiles (thorough 65536), else the product of the column classes {0,1,2,w/2-1,w/2,w-3,w-2,w-1} and the same row classes, plus 8 outside points per matrix; transitions = ToNative (also for the tiles one past the last column/row, whose corners close the grid: tile (w,h) is the far corner of the bounding box), FromNative at 9 interior points per tile (centre, four at 1/8 from the corners, four at 1/4096 of a tile from the middle of each side), MatrixBoundingBox; non-trivial = FromNative evaluations at interior points",
 		"exhaustive": true, "tiles_per_set": perSet,
 	})
 }
